@@ -15,6 +15,7 @@
 #include <asl/Mutex.h>
 #include <asl/atomic.h>
 #include <algorithm>
+#include <atomic>
 #include <set>
 using namespace asl;
 using namespace vh;
@@ -38,7 +39,7 @@ static std::vector<Prog> parseProgs(const std::string& s)
 			std::string o = p.substr(c, d - c);
 			if (!o.empty() && o != "-") {
 				Op op = { o[0], 0, 0 };
-				if (o[0] == 'c' && o.size() > 1) op.i = o[1] - '0';
+				if ((o[0] == 'c' || o[0] == 'u') && o.size() > 1) op.i = o[1] - '0';
 				if (o[0] == 'a' && o.size() > 2) { op.i = o[1] - '0'; op.j = o[2] - '0'; }
 				if (o[0] == 'p') op.i = atoi(o.c_str() + 1);
 				pr.push_back(op);
@@ -51,12 +52,59 @@ static std::vector<Prog> parseProgs(const std::string& s)
 	return ps;
 }
 
+// payload element: counts constructions and destructions, so that "destroyed exactly once" is observable
+struct Tracked {
+	int v;
+	static std::atomic<int> live;
+	Tracked() : v(0) { live++; }
+	Tracked(int x) : v(x) { live++; }
+	Tracked(const Tracked& o) : v(o.v) { live++; }
+	Tracked& operator=(const Tracked& o) { v = o.v; return *this; }
+	~Tracked() { live--; }
+};
+std::atomic<int> Tracked::live(0);
+
+typedef Array<Tracked> HArray;
+typedef Map<int, Tracked> HMap;
+typedef HashMap<int, Tracked> HHash;
+typedef Shared<Tracked> HShared;
+
 template<class H> struct Make;
-template<> struct Make<Array<int> > { static Array<int>* make(int k) { Array<int>* a = new Array<int>; *a << k << k + 1; return a; } };
-template<> struct Make<Map<int, int> > { static Map<int, int>* make(int k) { Map<int, int>* a = new Map<int, int>; (*a)[k] = 1; return a; } };
-template<> struct Make<HashMap<int, int> > { static HashMap<int, int>* make(int k) { HashMap<int, int>* a = new HashMap<int, int>; (*a)[k] = 1; (*a)[k + 256] = 2; return a; } };
-template<> struct Make<Shared<int> > { static Shared<int>* make(int k) { return new Shared<int>(new int(k)); } };
-template<> struct Make<SmartObject> { static SmartObject* make(int) { return new SmartObject; } };
+template<> struct Make<HArray> {
+	static HArray* make(int k) { HArray* a = new HArray; *a << Tracked(k) << Tracked(k + 1); return a; }
+	static int sig(HArray* a) { return a->length() == 2 ? (*a)[0].v * 100 + (*a)[1].v : -1; }
+};
+template<> struct Make<HMap> {
+	static HMap* make(int k) { HMap* a = new HMap; (*a)[k] = Tracked(k + 1); return a; }
+	// no foreach here: an enumerator copies the handle, which would add reference-count steps of its own
+	static int sig(HMap* a) { const HMap& m = *a; int s = m.length() * 1000; for (int k = 1; k <= 7; k += 6) { const Tracked* v = m.find(k); if (v) s += k * 100 + v->v; } return s; }
+};
+template<> struct Make<HHash> {
+	static HHash* make(int k) { HHash* a = new HHash; (*a)[k] = Tracked(k + 1); (*a)[k + 256] = Tracked(k + 2); return a; }
+	static int sig(HHash* a) { const HHash& m = *a; int s = m.length() * 100000; int ks[4] = { 1, 257, 7, 263 }; for (int i = 0; i < 4; i++) { const Tracked* v = m.find(ks[i]); if (v) s += ks[i] * 10 + v->v; } return s; }
+};
+template<> struct Make<HShared> {
+	static HShared* make(int k) { return new HShared(new Tracked(k)); }
+	static int sig(HShared* a) { return (**a).v; }
+};
+struct TObj : public SmartObject_ { Tracked t; TObj(int k) : t(k) {} };
+template<> struct Make<SmartObject> {
+	static SmartObject* make(int k) { return new SmartObject(new TObj(k)); }
+	static int sig(SmartObject* a) { TObj* o = dynamic_cast<TObj*>(a->_p); return o ? o->t.v : -1; }
+};
+
+// the payload seen through a handle must be that of object A (built from 1) or of object B (built from 7)
+template<class H>
+static bool payloadOk(H* h)
+{
+	// the two reference signatures are computed on the first call with h == 0, outside any scheduled thread
+	static int sa = -2, sb = -2;
+	if (sa == -2) { H* A = Make<H>::make(1); H* B = Make<H>::make(7); sa = Make<H>::sig(A); sb = Make<H>::sig(B); delete A; delete B; }
+	if (!h) return true;
+	int s = Make<H>::sig(h);
+	return s == sa || s == sb;
+}
+static std::atomic<int> payloadBad(0);
 
 // addresses of the reference counters of the object behind handle h, in the order a copy increments them
 template<class H>
@@ -84,6 +132,7 @@ static void runProg(std::vector<H*>& hs, const Prog& p)
 		if (o.t == 'c') hs.push_back(new H(*hs[o.i % n]));
 		else if (o.t == 'x') { delete hs.back(); hs.pop_back(); }
 		else if (o.t == 'a') *hs[o.i % n] = *hs[o.j % n];
+		else if (o.t == 'u') { if (!payloadOk<H>(hs[o.i % n])) payloadBad++; }
 	}
 	while (!hs.empty()) { delete hs.back(); hs.pop_back(); }
 }
@@ -95,6 +144,7 @@ static std::string scenHandles(const std::vector<Prog>& progs, int maxSched)
 	std::vector<int> prefix;
 	int count = 0, deadlocks = 0;
 	bool full = false;
+	{ vs::Sched& s = vs::S(); s.record_only = true; payloadOk<H>((H*)0); s.trace.clear(); s.record_only = false; }
 	for (;;) {
 		H* A = Make<H>::make(1);
 		H* B = Make<H>::make(7);
@@ -124,6 +174,8 @@ static std::string scenHandles(const std::vector<Prog>& progs, int maxSched)
 			out += (k ? "," : "") + str(f);
 		}
 		out += " c=0 v=0";
+		if (Tracked::live != 0) out += " PAYLOAD-LIVE=" + str((int)Tracked::live);   // leaked or destroyed twice
+		if (payloadBad != 0) { out += " PAYLOAD-CORRUPT"; payloadBad = 0; }
 		outcomes.insert(out);
 		count++;
 		if (!vs::next_prefix(ds, prefix)) { full = true; break; }
@@ -243,6 +295,7 @@ static std::string recKind()
 template<class H>
 static std::string stressHandles(int nth, int iters)
 {
+	payloadOk<H>((H*)0);
 	H* A = Make<H>::make(1);
 	std::vector<H*> own(nth);
 	for (int i = 0; i < nth; i++) own[i] = new H(*A);
@@ -253,13 +306,17 @@ static std::string stressHandles(int nth, int iters)
 			for (int k = 0; k < iters; k++) {
 				H* c = new H(*own[i]);
 				H d(*c);
+				if (!payloadOk<H>(&d)) payloadBad++;
 				*c = d;
 				*c = *own[i];
+				if ((k & 7) == 0 && !payloadOk<H>(c)) payloadBad++;
 				delete c;
 			}
 			delete own[i];
 		}));
 	for (int i = 0; i < nth; i++) th[i].join();
+	if (payloadBad != 0) { payloadBad = 0; return "payload-corrupt"; }
+	if (Tracked::live != 0) return "payload-live=" + str((int)Tracked::live) + " (leaked or destroyed twice)";
 	return "ok";
 }
 
@@ -285,16 +342,60 @@ static std::string stressCount(int nth, int iters)
 	return "ok";
 }
 
+
+// ---- shape of every Atomic<T> operator (G): which mutex steps surround the access, and the value it computes
+static std::string recAtomicOps()
+{
+	vs::Sched& s = vs::S();
+	std::string out;
+	Atomic<int> v(5);
+	int sink = 0;
+	const volatile void* mtx = 0;
+#define REC(name, stmt, expectVal) { \
+		s.record_only = true; s.trace.clear(); stmt; \
+		std::string e; \
+		for (size_t i = 0; i < s.trace.size(); i++) { \
+			int k = s.trace[i].kind; \
+			if (k == vs::K_LOCK || k == vs::K_UNLOCK) { if (!mtx) mtx = s.trace[i].addr; } \
+			e += (e.empty() ? "" : ":"); \
+			e += (k == vs::K_LOCK && s.trace[i].addr == mtx) ? "lock" : (k == vs::K_UNLOCK && s.trace[i].addr == mtx) ? "unlock" : "other"; \
+		} \
+		s.trace.clear(); s.record_only = false; \
+		out += std::string(out.empty() ? "" : " ; ") + name + " " + (e.empty() ? "-" : e) + " " + str((int)(*v)) + "/" + str(sink) + "/" + str((int)(expectVal)); }
+	REC("assign", v = 7, 7)
+	REC("read", sink = ~v, 7)
+	REC("conv", sink = (int)v, 7)
+	REC("not", sink = !v, 7)
+	REC("bool", sink = (bool)v, 7)
+	REC("eq", sink = (v == 7), 7)
+	REC("ne", sink = (v != 7), 7)
+	REC("lt", sink = (v < 8), 7)
+	REC("le", sink = (v <= 7), 7)
+	REC("gt", sink = (v > 6), 7)
+	REC("ge", sink = (v >= 7), 7)
+	REC("neg", sink = -v, 7)
+	REC("preinc", sink = ++v, 8)
+	REC("postinc", sink = v++, 9)
+	REC("predec", sink = --v, 8)
+	REC("postdec", sink = v--, 7)
+	REC("add", v += 5, 12)
+	REC("sub", v -= 2, 10)
+	REC("mul", v *= 3, 30)
+	REC("div", v /= 5, 6)
+#undef REC
+	return out;
+}
+
 static std::string step(const Toks& t)
 {
 	if (t[0] == "stress" && t.size() == 4) {
 		int nth = (int)num(t[2]), it = (int)num(t[3]);
 		asl_verif_hook() = 0;
 		std::string r = "bad-op";
-		if (t[1] == "array") r = stressHandles<Array<int> >(nth, it);
-		else if (t[1] == "map") r = stressHandles<Map<int, int> >(nth, it);
-		else if (t[1] == "hashmap") r = stressHandles<HashMap<int, int> >(nth, it);
-		else if (t[1] == "shared") r = stressHandles<Shared<int> >(nth, it);
+		if (t[1] == "array") r = stressHandles<HArray >(nth, it);
+		else if (t[1] == "map") r = stressHandles<HMap >(nth, it);
+		else if (t[1] == "hashmap") r = stressHandles<HHash >(nth, it);
+		else if (t[1] == "shared") r = stressHandles<HShared >(nth, it);
 		else if (t[1] == "smart") r = stressHandles<SmartObject>(nth, it);
 		else if (t[1] == "count") r = stressCount(nth, it);
 		vs::install();
@@ -303,20 +404,21 @@ static std::string step(const Toks& t)
 	if (t[0] == "scen" && t.size() == 4) {
 		int maxs = (int)num(t[2]);
 		std::vector<Prog> ps = parseProgs(t[3]);
-		if (t[1] == "array") return scenHandles<Array<int> >(ps, maxs);
-		if (t[1] == "map") return scenHandles<Map<int, int> >(ps, maxs);
-		if (t[1] == "hashmap") return scenHandles<HashMap<int, int> >(ps, maxs);
-		if (t[1] == "shared") return scenHandles<Shared<int> >(ps, maxs);
+		if (t[1] == "array") return scenHandles<HArray >(ps, maxs);
+		if (t[1] == "map") return scenHandles<HMap >(ps, maxs);
+		if (t[1] == "hashmap") return scenHandles<HHash >(ps, maxs);
+		if (t[1] == "shared") return scenHandles<HShared >(ps, maxs);
 		if (t[1] == "smart") return scenHandles<SmartObject>(ps, maxs);
 		if (t[1] == "count" || t[1] == "atomic") return scenCounters(ps, maxs);
 		return "bad-op";
 	}
 	if (t[0] == "rec" && t.size() == 2) {
-		if (t[1] == "array") return recKind<Array<int> >();
-		if (t[1] == "map") return recKind<Map<int, int> >();
-		if (t[1] == "hashmap") return recKind<HashMap<int, int> >();
-		if (t[1] == "shared") return recKind<Shared<int> >();
+		if (t[1] == "array") return recKind<HArray >();
+		if (t[1] == "map") return recKind<HMap >();
+		if (t[1] == "hashmap") return recKind<HHash >();
+		if (t[1] == "shared") return recKind<HShared >();
 		if (t[1] == "smart") return recKind<SmartObject>();
+		if (t[1] == "atomicops") return recAtomicOps();
 		return "bad-op";
 	}
 	return "bad-op";
